@@ -1,8 +1,9 @@
 PROPERTY = "C05"
 LEVEL = "proof"
-LEAN_MODULES = ["CifModel.Props.C05", "CifModel.Props.C04", "CifModel.Model.StoreSchema"]
+LEAN_MODULES = ["CifModel.Props.C05", "CifModel.Props.C04", "CifModel.Model.StoreSchema", "CifModel.Props.ReviewC06"]
 REQUIRED = ["CifModel.C05_atomic", "CifModel.C05_next_call_unaffected", "CifModel.C05_failed_call_restores_store", "CifModel.Store.C05_paths_link",
-            "CifModel.C04_inv_reachable", "CifModel.C04_inv_gives_loop_keys", "CifModel.Store.schema_txmacros_link"]
+            "CifModel.C04_inv_reachable", "CifModel.C04_inv_gives_loop_keys", "CifModel.Store.schema_txmacros_link",
+            "CifModel.C05_atomic_reachable", "CifModel.C05_failed_set_category_keeps_handle"]
 GEN = ["ErrCodes", "Schema"]
 FAMILIES = ["store"]
 TRUSTED_BASE = [
@@ -14,8 +15,15 @@ TRUSTED_BASE = [
 ]
 ASSUMPTIONS = ["prepared-statement recycling (PREPARE_STMT/DROP_STMT) is abstracted away: a statement is always usable; a stale statement would show as a "
                "later call failing in the correspondence run"]
-PARTIAL = []
-LEVEL_TEXT = ("Proof: for EVERY op of the model (34 ops, arbitrary argument lists — so the offending element at every position — inside or outside "
+PARTIAL = [
+    "'a following valid call behaves as if the failed one had never been made' (C05_next_call_unaffected) compares the rest of the history "
+    "with the CIFs put back but with the HANDLE tables as the failed call left them: a failed cif_loop_set_category through a STALE handle (its "
+    "loop is gone) still updates the handle's cached category (loop.c:232; the model follows the C). Through a valid handle the handle is "
+    "unchanged (C05_failed_set_category_keeps_handle); the stale-handle call is out of contract (Model/StoreContract inContract)",
+    "C05_atomic speaks about the relational content, the BEGIN snapshot and the savepoint stack (left-over savepoints are snapshots of the "
+    "unchanged content); the abstraction to the documented model (absW) of a failed in-contract call is covered by C04_refines for 24 of 31 ops",
+]
+LEVEL_TEXT = ("Proof: for EVERY op of the model (31 ops, arbitrary argument lists — so the offending element at every position — inside or outside "
               "an open iterator's transaction) a non-OK result leaves the content, the BEGIN snapshot and the autocommit status of every CIF unchanged.")
 LEVEL_NOTE = ("Left-over savepoints after a nested rollback are shown to be snapshots of the unchanged content and invisible to every later call "
               "(step_wsim / run_wsim), so the second half of the property holds inside iterator transactions too. Trusted: Lean kernel, translator, SQLite semantics as modelled, executor/generator/oracle.")
